@@ -156,13 +156,14 @@ ViolOf(t) ==
 GenInit ==
   /\ Init
   /\ plan \in Plans(kind, beh)
+  /\ (beh = "slow" => Len(plan) <= 1)     \* (12 s of real time per CONFIGURE: a request on its own is enough)
   \* the event loop serves agent events before a queued terminal status: needed to send a request to a controllable
   \* task that is "reaped", and explored for a second Kill of a basic / hook task that comes after the first one is done
   /\ hold \in (IF kind = "ctl" THEN {\E j \in 1..Len(plan) : plan[j].when = "reaped"}
                ELSE IF Len(plan) = 2 /\ plan[1].r = "Kill" /\ plan[2].r = "Kill" /\ plan[2].at = "calm"
                        /\ plan[1].when = plan[2].when THEN {FALSE, TRUE}
                ELSE {FALSE})
-  /\ deep \in (IF kind = "ctl" /\ beh \notin {"noready", "stuck", "midstate"} THEN BOOLEAN ELSE {FALSE})
+  /\ deep \in (IF kind = "ctl" /\ beh \notin {"noready", "stuck", "midstate", "slow"} THEN BOOLEAN ELSE {FALSE})
   /\ tmo \in (IF kind = "ctl" /\ beh \in {"noready", "stuck"} /\ Len(plan) = 0 THEN {TRUE} ELSE {FALSE})
   \* stop / kill of a running child, once more for a task with a configured user
   /\ usr \in (IF Len(plan) = 1 /\ plan[1].when = "running" /\ plan[1].r \in {"STOP", "Kill"}
